@@ -56,6 +56,17 @@ type Writer struct {
 		// indexStart is set when the tail is sealed indicating the file offset at
 		// which the index array was written.
 		indexStart uint64
+
+		// dirtyEnd is the highest file offset we may have written bytes up to. It
+		// equals writeOffset unless a batch was (maybe partially) written to the
+		// file and then failed to commit, in which case the bytes between
+		// writeOffset and dirtyEnd are left over from it.
+		dirtyEnd uint32
+
+		// failed is set if we could not clean up after a failed batch. The file
+		// beyond writeOffset is in an unknown state so we refuse to write any more
+		// until the segment has been through recovery again.
+		failed error
 	}
 
 	info types.SegmentInfo
@@ -302,6 +313,35 @@ func (w *Writer) wipeStale() error {
 	}
 }
 
+// wipeFailedBatch is called after the writer state has been rolled back because
+// a batch failed to commit. If any of that batch reached the file (the write
+// happened but the fsync failed, or the write failed part way) its bytes are
+// still there beyond writeOffset. A later, shorter batch would leave the rest
+// of them behind its commit frame where the next recovery could take them for
+// committed frames, so put zeros back. They don't need their own fsync: they
+// are covered by the fsync of the next batch that commits. If we can't even do
+// that we don't know what the file contains any more so refuse further writes.
+func (w *Writer) wipeFailedBatch() {
+	if w.writer.dirtyEnd <= w.writer.writeOffset {
+		w.writer.dirtyEnd = w.writer.writeOffset
+		return
+	}
+	zeros := make([]byte, minBufSize)
+	for off := w.writer.writeOffset; off < w.writer.dirtyEnd; {
+		n := w.writer.dirtyEnd - off
+		if n > uint32(len(zeros)) {
+			n = uint32(len(zeros))
+		}
+		if _, err := w.wf.WriteAt(zeros[:n], int64(off)); err != nil {
+			w.writer.failed = fmt.Errorf("segment tail is in an unknown state after a failed write,"+
+				" refusing further writes until it has been recovered: %w", err)
+			return
+		}
+		off += n
+	}
+	w.writer.dirtyEnd = w.writer.writeOffset
+}
+
 // Close implements io.Closer
 func (w *Writer) Close() error {
 	return w.r.Close()
@@ -322,6 +362,9 @@ func (w *Writer) Append(entries []types.LogEntry) error {
 	if w.writer.indexStart > 0 {
 		return types.ErrSealed
 	}
+	if w.writer.failed != nil {
+		return w.writer.failed
+	}
 
 	flushed := false
 
@@ -340,6 +383,7 @@ func (w *Writer) Append(entries []types.LogEntry) error {
 			w.writer.indexStart = beforeIndexStart
 			w.writer.writeOffset = beforeWriteOffset
 			w.offsets.Store(beforeOffsets)
+			w.wipeFailedBatch()
 		}
 	}()
 
@@ -510,6 +554,11 @@ func (w *Writer) appendFrame(fh frameHeader, data []byte) (int, error) {
 }
 
 func (w *Writer) flush() error {
+	// Remember how far we may have written in case this batch fails to commit.
+	if end := w.writer.writeOffset + uint32(len(w.writer.commitBuf)); end > w.writer.dirtyEnd {
+		w.writer.dirtyEnd = end
+	}
+
 	// Write to file
 	n, err := w.wf.WriteAt(w.writer.commitBuf, int64(w.writer.writeOffset))
 	if err == io.EOF && n == len(w.writer.commitBuf) {
@@ -571,6 +620,9 @@ func (w *Writer) ForceSeal() (uint64, error) {
 		// Already sealed, this is a no-op.
 		return w.writer.indexStart, nil
 	}
+	if w.writer.failed != nil {
+		return 0, w.writer.failed
+	}
 
 	// Save any state we may need to rollback, just like Append. If writing the
 	// index out fails we must not be left thinking we are sealed: a retry would
@@ -586,6 +638,7 @@ func (w *Writer) ForceSeal() (uint64, error) {
 			w.writer.crc = beforeCRC
 			w.writer.indexStart = 0
 			w.writer.writeOffset = beforeWriteOffset
+			w.wipeFailedBatch()
 		}
 	}()
 
